@@ -313,6 +313,33 @@ def end_to_end(rep, tier, rnd):
         add("filter %s garbage-input" % tag, ["-c", src], b"not a pcap at all", "terminal")
         add("filter %s no-input" % tag, ["-c", src], b"", "terminal")
     results = e2e.run_many(jobs)
+    # a standard output that fails (full device, reader gone) is an input like any other: no builtin that prints, and
+    # no echo of a final value, may abort the interpreter over it
+    printers = {"puts": 'puts("x"); puts(1, [2], "s"); puts();', "print": 'print("a{}", 1); println("b"); println("{:>4}", 7);',
+                "write-stdout": 'write(stdout, "abc"); write(stdout, byte(65)); write(stdout, [byte(66), byte(10)]); write(stdout, "0123456789" * 500);',
+                "echo-final-value": '"a final value"', "flush": 'print("pending"); flush(stdout); 5',
+                "loop-of-puts": 'let i = 0; while i < 3000 { i = i + 1; puts(i); }',
+                "filter-mode-output": '@ true'}
+    import os
+    import shutil
+    import tempfile
+    wd = core.workdir("c08s")
+    for name, src in printers.items():
+        for sink in ("full", "closed"):
+            for mode in ("-c", "file"):
+                if mode == "file":
+                    fd, path = tempfile.mkstemp(suffix=".p2", dir=wd)
+                    os.write(fd, src.encode())
+                    os.close(fd)
+                    args = [path]
+                else:
+                    args = ["-c", src]
+                r = e2e.run_bin_failing_stdout(args, sink, stdin=cap if name == "filter-mode-output" else b"")
+                rep.cov["evaluations"] += 1
+                if r["how"] != "exit":
+                    rep.disagree("e2e stdout-failure %s %s want=terminal got=%s rc=%s" % (name, "closed-pipe" if sink == "closed" else "full-device", r["how"], r["rc"]),
+                                 {"args": args, "mode": mode, "stderr": r["err"].decode("utf8", "replace")[:300]})
+    shutil.rmtree(wd, ignore_errors=True)
     for r, res in zip(recs, results):
         r["out"] = {"how": res["how"], "rc": res["rc"] if res["rc"] is not None else -1,
                     "rterr": b"Runtime error" in res["err"]}
